@@ -652,12 +652,15 @@ class OGen:
   def annotated_unions(self, classes):
     r = self.r
     u = lambda compat=True: self.union_ann(classes, compat)
-    for _ in range(r.randint(2, 3)):          # module-level functions
+    for i in range(2):                        # module-level functions
       (a, _), (b, bl), (k, kl), (ret, rl) = u(), u(), u(), u(r.random() < 0.7)
-      (c, _) = u()
-      self.emit(f"def {self.name()}({self.name()}: {a}, {self.name()}: {b} = {bl}, *{self.name()}: {c},",
-                f"        {self.name()}: {k} = {kl}, **{self.name()}: {u()[0]}) -> {ret}:",
-                f"  return {rl}")
+      if i == 0:   # every parameter kind once
+        self.emit(f"def {self.name()}({self.name()}: {a}, {self.name()}: {b} = {bl}, *{self.name()}: {u()[0]},",
+                  f"        {self.name()}: {k} = {kl}, **{self.name()}: {u()[0]}) -> {ret}:",
+                  f"  return {rl}")
+      else:
+        self.emit(f"def {self.name()}({self.name()}: {a}, {self.name()}: {b} = {bl}, *, {self.name()}: {k} = {kl}) -> {ret}:",
+                  f"  return {rl}")
     (a, _), (b, bl), (e, _) = u(), u(), u()     # the same unions nested in containers
     self.emit(f"def {self.name()}({self.name()}: List[{a}], {self.name()}: Dict[str, {b}] = None,",
               f"        *, {self.name()}: Optional[Tuple[{e}, ...]] = None) -> Dict[str, List[{u()[0]}]]:",
@@ -694,9 +697,20 @@ class OGen:
     self.emit("import collections", "import enum",
               "from typing import Any, Dict, Generic, List, NamedTuple, Optional, Set, Tuple, TypeVar, Union", "")
     self.emit("T = TypeVar('T')", "S = TypeVar('S')")
+    # TypeVar ladder: unannotated three-parameter functions whose inferred signatures need two or
+    # three type variables (_T0.._T2).  It comes first so that, in a fresh process, the
+    # process-global placeholder ids (abstract.Unknown._current_id, 3 per function) handed to these
+    # parameters run densely from 0 to ~40 (crossing 9|10), while after any in-process history they
+    # start in the hundreds or thousands: a numbering of the type variables that depends on those
+    # ids (their magnitude, their text) gives a different stub in the isolated run than in the
+    # history runs.  (36 functions would also cross 99|100 but cost ~0.9 CPU-s per analysis.)
+    shapes = ["(c, [b], {a: b})", "[a, b, a]", "{a: (b, c), b: a}", "(b, a, c)", "[(a, c), (c, b)]",
+              "{c: [a, a], a: c}", "(c, b) if a else (b, c)"]
+    for _ in range(14):
+      self.emit(f"def {self.name()}(a, b, c): return {r.choice(shapes)}")
     funcs = [self.union_func() for _ in range(r.randint(2, 3))]
     classes = []
-    for _ in range(r.randint(3, 6)):
+    for _ in range(r.randint(3, 5)):
       classes.append(self.klass(classes))
     # generic / namedtuple / enum flavours
     nt = self.name(cap=True)
@@ -715,7 +729,7 @@ class OGen:
                 f"  return {r.choice(['a', 'b', '(a, b)', '[b, a]', '{1: a, 2: b}', 'c or a', 'opts'])}")
       funcs.append(f)
     # module-level state with set-valued intermediate results
-    for _ in range(r.randint(5, 10)):
+    for _ in range(r.randint(5, 8)):
       v = self.name()
       k = r.randrange(9)
       if k == 0:
